@@ -53,7 +53,7 @@ def corruptions(tr):
     def flip_active(e):
         i = _first(e, lambda x: x["e"] == "gsc" and x["by"] == "step" and len(x["snap"]["demes"]) > 1)
         e[i]["snap"]["demes"][1]["act"] ^= 1
-    mk("active_flag", {"C06_StopCauses"}, flip_active)
+    mk("active_flag", {"C06_StopCauses", "C06_InactiveFrozen"}, flip_active)
 
     def bump_evals(e):
         i = _first(e, lambda x: x["e"] == "gsc" and x["by"] == "deme")
